@@ -197,7 +197,9 @@ class TemplateError(Exception):
                 )
             elif self.filename and not self.filename.startswith('<'):
                 try:
-                    f = open(self.filename)
+                    # (the file is in the template's encoding, which
+                    # need not be the default one)
+                    f = open(self.filename, errors='replace')
                 except OSError:
                     pass
                 else:
@@ -331,7 +333,9 @@ class ExceptionFormatter:
 
             if filename and not filename.startswith('<') and line and column:
                 try:
-                    f = open(filename)
+                    # (the file is in the template's encoding, which
+                    # need not be the default one)
+                    f = open(filename, errors='replace')
                 except OSError:
                     pass
                 else:
